@@ -33,7 +33,16 @@ MANIFEST = {
             "floods through switches, router hops, wireless, FTP, bursts, interface toggles by the real Terminal / the real C2 beacon / a "
             "remote shutdown / a test double, exceptions raised inside deliveries, capacity changes in mid-tick, bandwidth = exact sum of k "
             "frames and one ulp beside it) and replays it through the model, comparing verdicts and loads as exact byte counts; every real "
-            "(float) admission test is also compared with exact rational arithmetic.",
+            "(float) admission test is also compared with exact rational arithmetic. Round 4: the airspace's interface lists are modelled "
+            "(Ev.wjoin / Ev.wleave = add_/remove_wireless_interface, separate from the enabled flag; clear() = every interface leaves); "
+            "neither touches a load, so the data TRANSMITTED on a frequency in a tick (summed from the sends, not read from the counter) "
+            "is within capacity whatever joins, leaves, is disabled or enabled inside the tick, also when a frequency is emptied and "
+            "repopulated (C18_Full_air_transmitted_holds; the accounting that forgets on empty is C18_air_forget_on_empty_counterexample). "
+            "Gen: the writers of bandwidth_load and of current_load are regenerated inventories equal to committed lists, the three "
+            "membership functions have strict shapes, and the window between the size read by the admission test and the size read by the "
+            "accounting contains no write on the frame (C18_gen_size_window). The rig drives remove/add/clear directly, empties and "
+            "repopulates every frequency inside a tick, moves an access point to another frequency in mid-episode, checks that no load "
+            "decreases inside a tick, and compares a wireless access point's answer with the acceptance model.",
     "note": "C18-specific: frame sizes (JSON length of the frame, F-9) and the far interface's accept/reject answer are inputs to the "
             "model, not predicted (the answer is compared with C08's acceptance model); IEEE-754 behaviour (exact when representable, "
             "monotone) is assumed, not verified; which software raises is not predicted (an exception is an input event).",
@@ -179,6 +188,8 @@ def run(ctx: Ctx):
                     ctx.count("wireless-iface-toggle-while-a-frame-is-in-the-air-on-its-channel")
                 if e["t"] == "R":
                     ctx.count("wireless:heard")
+                if e["t"] in ("J", "Q"):
+                    ctx.count("airspace-membership:" + ("added" if e["t"] == "J" else "removed"))
         for k, v in r.get("info", {}).items():
             ctx.count("observed:" + k, v)
         if "topo" in case and rig.ALT_NAME in case["topo"].get("freqs", []):
@@ -219,22 +230,24 @@ def run(ctx: Ctx):
                 ctx.violation(_oracle_sig(o), f"{o['kind']} ({o.get('medium', '-')}) at op {o['op']} {case['ops'][o['op']]}: {json.dumps(o)}",
                               {"case": case, "oracle": orc[:5], "from": name})
             continue
-        kinds = {o["kind"] for o in orc} or {"model-vs-impl"}
-        # Search stage, bounded: `Ctx.finish` writes ONE replay per distinct signature, so only the first failing traces of a
-        # presumptive signature are minimised (each minimisation re-runs the implementation and the driver up to 60 times); the
-        # rest are counted. Without the bound a change that breaks most traces (seeded C18-a: 563 of 920) cost 233 s.
-        pre_sig = json.dumps(_oracle_sig(orc[0]) if orc else {"kind": "model-vs-impl", "line": (r["lines"][di] if di < len(r["lines"]) else "?").split()[0]},
-                             sort_keys=True)
-        failing_by_sig[pre_sig] = failing_by_sig.get(pre_sig, 0) + 1
-        ctx.count("failing-trace:" + (orc[0]["kind"] if orc else "model-vs-impl"))
-        if failing_by_sig[pre_sig] > SHRINK_PER_SIG or shrink_spent[0] > SHRINK_WALL:
-            if failing_by_sig[pre_sig] > SHRINK_PER_SIG:
-                continue            # same class as a trace already minimised and reported
+        kinds = {o["kind"] for o in orc} | ({"model-vs-impl"} if di >= 0 else set())
+        # Search stage, bounded: `Ctx.finish` writes ONE replay per distinct signature, so only the first traces that show an
+        # oracle kind are minimised (each minimisation re-runs the implementation and the driver up to 60 times), and they are
+        # minimised with respect to the kinds that are still NEW (so a trace that breaks both the counter-side and the
+        # transmitted-sum oracle yields a witness for each); the rest are counted. Without the bound a change that breaks most
+        # traces (seeded C18-a: 563 of 920) cost 233 s.
+        fresh = {k for k in kinds if failing_by_sig.get(k, 0) < SHRINK_PER_SIG}
+        for kd in sorted(kinds):
+            failing_by_sig[kd] = failing_by_sig.get(kd, 0) + 1
+            ctx.count("failing-trace:" + kd)
+        if not fresh:
+            continue                # every kind this trace shows has already been minimised and reported
+        if shrink_spent[0] > SHRINK_WALL:
             small, orc2, di2, r2, model2 = case, orc, di, r, model     # out of search time: reported unminimised
         else:
             t1 = time.time()
 
-            def fails(ops, case=case, kinds=kinds):
+            def fails(ops, case=case, kinds=fresh):
                 return _fails(dict(case, ops=ops), kinds)
             small = dict(case, ops=shrink_ops(case["ops"], fails, budget=60))
             try:
@@ -247,10 +260,15 @@ def run(ctx: Ctx):
             shrink_spent[0] += time.time() - t1
             ctx.cov["search_wall_s"] = round(shrink_spent[0], 2)
         if orc2:
-            o = orc2[0]
-            ctx.violation(_oracle_sig(o), f"{o['kind']} ({o.get('medium', '-')}) at op {o['op']} {small['ops'][o['op']]}: {json.dumps(o)}",
-                          {"case": small, "oracle": orc2[:5], "lines": r2["lines"], "impl": r2["impl"], "from": name})
-        else:
+            seen_kinds = set()
+            for o in orc2:          # one report per distinct oracle kind the (minimised) trace breaks
+                if o["kind"] in seen_kinds:
+                    continue
+                seen_kinds.add(o["kind"])
+                ctx.violation(_oracle_sig(o), f"{o['kind']} ({o.get('medium', '-')}) at op {o['op']} "
+                              f"{small['ops'][o['op']] if 0 <= o['op'] < len(small['ops']) else '-'}: {json.dumps(o)}",
+                              {"case": small, "kind": o["kind"], "oracle": orc2[:5], "lines": r2["lines"], "impl": r2["impl"], "from": name})
+        if di2 >= 0:
             q = r2["lines"][di2] if di2 < len(r2["lines"]) else "?"
             what = ("the far interface's answer differs from C08's acceptance model (farAnswer)" if q.startswith("far ")
                     else "link accounting differs from the proved model")
